@@ -34,7 +34,7 @@ package storage
 //@   at BuildSegment#1 havoc
 //@   ghost gDrained []RecordBatch = nil
 //@   at Drain#1 after set gDrained = ret0
-//@   ensures [C01.prepare_keeps_every_drained_batch_in_flight] err == nil && result0 != nil ==> l.flushing && sameSlice(l.flushingBatches, gDrained) && !old(l.flushing)
+//@   ensures [C01.prepare_keeps_every_drained_batch_in_flight] err == nil && result0 != nil ==> l.flushing && sameSlice(l.flushingBatches, gDrained) && len(l.flushingBatches) == len(gDrained) && len(gDrained) == old(len(l.buffer.batches)) && !old(l.flushing)
 //@   ensures [C01.prepare_reports_nothing_only_when_nothing_is_pending] err == nil && result0 == nil ==> (old(l.flushing) || old(len(l.buffer.batches)) == 0) && l.flushing == old(l.flushing) && sameSlice(l.flushingBatches, old(l.flushingBatches))
 
 //@ func (l *PartitionLog) uploadFlush
